@@ -214,11 +214,30 @@ func (dt DateTime) Add(input Quantity) (DateTime, error) {
 
 	// Reformat to truncate DateTime to initial precision, rounding down to
 	// highest precision value.
-	result, err := time.Parse(string(dt.l), result.Format(string(dt.l)))
+	l := layoutWithFraction(result, dt.l)
+	result, err := time.Parse(string(l), result.Format(string(l)))
 	if err != nil {
 		return DateTime{}, err
 	}
-	return DateTime{result, dt.l}, nil
+	return DateTime{result, l}, nil
+}
+
+// layoutWithFraction returns the millisecond variant of a second-precision
+// layout if the time has a fraction of a second, so that the fraction added
+// by a quantity in (milli)seconds stays part of the printed value.
+func layoutWithFraction(t time.Time, l layout) layout {
+	if t.Nanosecond() == 0 {
+		return l
+	}
+	switch l {
+	case dtSecondLayoutTZ:
+		return dtMillisecondLayoutTZ
+	case dtSecondLayout:
+		return dtMillisecondLayout
+	case secondLayout:
+		return millisecondLayout
+	}
+	return l
 }
 
 // Sub returns the result of dt - input.(Quantity). Returns an
@@ -265,7 +284,7 @@ func (dt DateTime) Sub(input Quantity) (DateTime, error) {
 		duration = roundToDateTimePrecision(dateTimeMap[dt.l], duration)
 		result = dt.dateTime.Add(-duration)
 	}
-	return DateTime{result, dt.l}, nil
+	return DateTime{result, layoutWithFraction(result, dt.l)}, nil
 }
 
 // Name returns the type name.
